@@ -71,6 +71,10 @@ const (
 	opCall   // Name(Args)
 	opAnonCall
 	opUnpack // a, b = [N, N + 1]   (several targets, ONE list on the right)
+	// var a, b = [N, N + 1]  (Tag "list": several names, ONE list on the right) and
+	// var a, b = N, N + 1    (Tag "": one value per name): var binds every name in
+	// the current block, whatever the shape of the right-hand side
+	opVarMulti
 )
 
 type stmt struct {
@@ -253,6 +257,12 @@ func render(b []*stmt, ind string) string {
 			sb.WriteString(renderExpr(s.E, ind) + "(" + strings.Join(as, ", ") + ")")
 		case opUnpack:
 			fmt.Fprintf(&sb, "a, b = [%d, %d]", s.N, s.N+1)
+		case opVarMulti:
+			if s.Tag == "list" {
+				fmt.Fprintf(&sb, "var a, b = [%d, %d]", s.N, s.N+1)
+			} else {
+				fmt.Fprintf(&sb, "var a, b = %d, %d", s.N, s.N+1)
+			}
 		default:
 			panic("bad stmt")
 		}
@@ -732,6 +742,9 @@ func (m *machine) exec(st *stmt, s *mscope) sig {
 		// every target follows the plain-assignment rule on its own
 		s.assign("a", mval{k: 'i', n: st.N})
 		s.assign("b", mval{k: 'i', n: st.N + 1})
+	case opVarMulti:
+		s.v["a"] = mval{k: 'i', n: st.N}
+		s.v["b"] = mval{k: 'i', n: st.N + 1}
 	default:
 		panic("bad stmt")
 	}
